@@ -655,6 +655,7 @@ def check_and_run(src: str, flags: list[str] | None = None, exec_timeout: float 
         os.chdir(old)
         import shutil
         shutil.rmtree(d, ignore_errors=True)
+        inproc.cleanup()
 
 
 def case(src: str, n_mutants: int, key: list[Any], origin: str = "generated") -> dict[str, Any]:
